@@ -536,6 +536,8 @@ type veTraffic struct {
 	Written  map[int]string
 	Imported map[int]bool
 	Fat      bool // one flow carries more data than a pipe holds
+	// datagrams written as IPv4 fragments so far
+	Fragmented int
 }
 
 func (tr *veTraffic) captures() int { return len(tr.Cuts) - 1 }
@@ -595,12 +597,20 @@ func (tr *veTraffic) writeCapture(d veDirs, i int) (string, error) {
 		f.Close()
 		return "", err
 	}
-	for _, p := range tr.Packets[tr.Cuts[i]:tr.Cuts[i+1]] {
+	for k, p := range tr.Packets[tr.Cuts[i]:tr.Cuts[i+1]] {
 		data, _ := veSerializeUDP(tr.Flows[p.Flow], p.Dir, p.Payload)
-		ci := gopacket.CaptureInfo{Timestamp: tr.Base.Add(p.Off), CaptureLength: len(data), Length: len(data)}
-		if err := w.WritePacket(ci, data); err != nil {
-			f.Close()
-			return "", err
+		records := [][]byte{data}
+		// every third large datagram arrives as two IPv4 fragments (every sixth with the second one first)
+		if gi := tr.Cuts[i] + k; len(p.Payload) >= 64 && gi%3 == 0 {
+			records = veFragment(data, uint16(gi+1), 8*(3+gi%40), gi%6 == 0)
+			tr.Fragmented++
+		}
+		for _, rec := range records {
+			ci := gopacket.CaptureInfo{Timestamp: tr.Base.Add(p.Off), CaptureLength: len(rec), Length: len(rec)}
+			if err := w.WritePacket(ci, rec); err != nil {
+				f.Close()
+				return "", err
+			}
 		}
 	}
 	if err := f.Close(); err != nil {
@@ -611,6 +621,39 @@ func (tr *veTraffic) writeCapture(d veDirs, i int) (string, error) {
 	}
 	tr.Written[i] = name
 	return name, nil
+}
+
+// veFragment cuts an IPv4 datagram (header without options) into two fragments at the given offset of its payload.
+func veFragment(dgram []byte, id uint16, cut int, reverse bool) [][]byte {
+	hdr, body := dgram[:20], dgram[20:]
+	if cut%8 != 0 || cut <= 0 || cut >= len(body) {
+		return [][]byte{dgram}
+	}
+	var out [][]byte
+	for _, part := range [][2]int{{0, cut}, {cut, len(body)}} {
+		fb := append(append([]byte{}, hdr...), body[part[0]:part[1]]...)
+		fb[2], fb[3] = byte(len(fb)>>8), byte(len(fb))
+		fb[4], fb[5] = byte(id>>8), byte(id)
+		fo := uint16(part[0] / 8)
+		if part[1] != len(body) {
+			fo |= 0x2000
+		}
+		fb[6], fb[7] = byte(fo>>8), byte(fo)
+		fb[10], fb[11] = 0, 0
+		sum := uint32(0)
+		for j := 0; j < 20; j += 2 {
+			sum += uint32(fb[j])<<8 | uint32(fb[j+1])
+		}
+		for sum>>16 != 0 {
+			sum = sum&0xffff + sum>>16
+		}
+		fb[10], fb[11] = byte(^uint16(sum)>>8), byte(^uint16(sum))
+		out = append(out, fb)
+	}
+	if reverse {
+		out[0], out[1] = out[1], out[0]
+	}
+	return out
 }
 
 // ---------------------------------------------------------------------------------------------
